@@ -325,10 +325,11 @@ def monitor(case, obs):
 
 # ------------------------------------------------------------------ running
 
+ROOT_PID = os.getpid()      # worker processes are forked later and inherit this value
+
+
 def impl_case(case):
-    scratch = sf.scratch_dir()
-    # observation 0: the state before the first step
-    return sf.run_case(case, scratch)
+    return sf.run_case(case, sf.scratch_dir(ROOT_PID))
 
 
 def _impl_worker(case):
@@ -350,17 +351,12 @@ def run_impl(cases, jobs):
     if jobs <= 1 or len(cases) < 64:
         return [_impl_worker(c) for c in cases]
     ctxm = multiprocessing.get_context("fork")
-    with ProcessPoolExecutor(jobs, mp_context=ctxm, initializer=_init_worker) as ex:
+    with ProcessPoolExecutor(jobs, mp_context=ctxm) as ex:
         return list(ex.map(_impl_worker, cases, chunksize=max(1, len(cases) // (jobs * 8))))
 
 
-def _init_worker():
-    import atexit
-    atexit.register(_cleanup)
-
-
 def _cleanup():
-    shutil.rmtree(core.BUILD / "scratch" / str(os.getpid()), ignore_errors=True)
+    shutil.rmtree(core.BUILD / "scratch" / str(ROOT_PID), ignore_errors=True)
 
 
 def run(ctx, res):
